@@ -71,6 +71,10 @@ func (f *Fill) Call(s *slip.Scope, args slip.List, depth int) (result slip.Objec
 	}
 	result = args[0]
 	switch seq := args[0].(type) {
+	case nil:
+		if 0 < start || (end != math.MaxInt && 0 < end) {
+			slip.ErrorPanic(s, depth, ":start %d and :end %d are out of bounds for an empty list", start, end)
+		}
 	case slip.List:
 		end = checkStartEnd(s, start, end, len(seq), depth)
 		for i := start; i < end; i++ {
